@@ -586,21 +586,24 @@ fn main() {
     ));
     if thorough {
         let two = chains_of(2);
+        // the five one-character data are covered by the family above; two routes deep the
+        // combined / pre-escaped / heap / multibyte data carry the same characters
+        let data_two: Vec<Datum> = data_all.iter().filter(|d| d.text.chars().count() > 1).cloned().collect();
         spaces.push((
             "flows-2-routes".into(),
             format!(
-                "every source ({}) x every chain of exactly 2 routes ({}) x every sink ({}) x every datum ({}) x every configuration ({})",
+                "every source ({}) x every chain of exactly 2 routes ({}) x every sink ({}) x the {} data longer than one character x every configuration ({})",
                 SOURCES.len(),
                 two.len(),
                 SINKS.len(),
-                data_all.len(),
+                data_two.len(),
                 ALL_CFGS.len()
             ),
             Space {
                 sources: SOURCES.to_vec(),
                 chains: two,
                 sinks: SINKS.to_vec(),
-                data: data_all.clone(),
+                data: data_two,
                 cfgs: ALL_CFGS.to_vec(),
             },
         ));
